@@ -204,6 +204,9 @@ func (s *writer) shutdown() {
 }
 
 func (s *writer) send(pkt mqttp.IFace) {
+	// nothing is queued before start() has loaded the persisted backlog: order of delivery
+	s.wgStarted.Wait()
+
 	if ok := s.packetFitsSize(pkt); !ok {
 		return
 	}
